@@ -84,16 +84,19 @@ PropAccept(L, op, d) ==
 Path(L, op, d) == [i \in 1..Len(Received(L, op, d)) |-> Received(L, op, d)[i].by]
 
 Init == phase = "start" /\ act = [name |-> "init"]
-Case(L, op, d) ==
+(* seen = TRUE: the victim has already processed the genuine announcement (same stamp): a copy is then  *)
+(* an "immediate duplicate", which the code tolerates for hop pings - the rule for forgeries is the same. *)
+Case(L, op, d, seen) ==
   /\ phase = "start" /\ phase' = "done"
+  /\ (seen => op # "replayold")
   /\ (NeedsDepth(op) => d \in 2..L) /\ (~NeedsDepth(op) => d = 0)
   /\ (op \in {"outerflip", "outersigflip", "stripouter", "claimdirect"} => L >= 1)
   /\ (op = "reorder" => d < L)
-  /\ act' = [name |-> "case", len |-> L, op |-> op, depth |-> d,
+  /\ act' = [name |-> "case", len |-> L, op |-> op, depth |-> d, seen |-> seen,
              accept |-> ImplAccept(L, op, d), propaccept |-> PropAccept(L, op, d),
              path |-> IF PropAccept(L, op, d) THEN Path(L, op, d) ELSE <<>>,
              via |-> Deliverer(L, op)]
-Next == \E L \in 0..MaxLen, op \in Ops, d \in 0..MaxLen : Case(L, op, d)
+Next == \E L \in 0..MaxLen, op \in Ops, d \in 0..MaxLen, seen \in BOOLEAN : Case(L, op, d, seen)
 Spec == Init /\ [][Next]_vars
 
 Agree == act.name = "case" => (act.accept <=> act.propaccept)
